@@ -18,6 +18,13 @@ type GsfaReaderMultiepoch struct {
 	epochs []*GsfaReader
 }
 
+// ErrAddressMismatch can be returned by a fetcher to say that the transaction it was asked
+// to load does not involve the address being queried. The pubkey index keeps a truncated
+// hash of each key, not the key, so looking up an address that is not in an epoch's index
+// can land on the list of another address; the epoch is then treated as not containing
+// the address instead of contributing foreign transactions.
+var ErrAddressMismatch = errors.New("gsfa: index entry belongs to a different address")
+
 func NewGsfaReaderMultiepoch(epochs []*GsfaReader) (*GsfaReaderMultiepoch, error) {
 	// Check that the epoch is set:
 	for i, epoch := range epochs {
@@ -175,6 +182,9 @@ epochLoop:
 			for locIndex, txLoc := range locations {
 				tx, err := fetcher(epochNum, txLoc)
 				if err != nil {
+					if errors.Is(err, ErrAddressMismatch) {
+						continue epochLoop
+					}
 					return nil, fmt.Errorf("error while getting signature at index=%v: %w", txLoc, err)
 				}
 				sig, err := tx.Signature()
@@ -280,6 +290,9 @@ epochLoop:
 			for locIndex, txLoc := range locations {
 				tx, err := fetcher(epochNum, txLoc)
 				if err != nil {
+					if errors.Is(err, ErrAddressMismatch) {
+						continue epochLoop
+					}
 					return nil, fmt.Errorf("error while getting signature at index=%v: %w", txLoc, err)
 				}
 				if tx.Slot < int(until) {
